@@ -133,7 +133,7 @@ func genCanon(t *rapid.T) canonCase {
 		t.Fatalf("generator produced an invalid schema: %v", err)
 	}
 	al := allow()
-	if os.Getenv("C03_ALLOW") == "" {
+	if !strings.Contains(os.Getenv("C03_ALLOW"), "fragment-in-abstract-fragment") {
 		// fragment structure inside fragments on abstract types is not canonicalised
 		// (finding C03-nested-abstract-fragments-not-canonical): keep it out of this part
 		delete(al, "fragment-in-abstract-fragment")
